@@ -483,7 +483,7 @@ def fut_ok(e, f):
 
 class C17(core.Property):
     id = "C17"
-    modules = ["Proofs.ClientProofs", "Proofs.ClientBounded", "Props.C17"]
+    modules = ["Proofs.ClientProofs", "Proofs.ClientBounded", "Props.C17", "Proofs.LinkClientFraming"]
     obligations = ["inv_init", "inv_step", "inv_run", "done_stable", "resolved_kept", "fail_all_done",
                    "fail_all_pending", "fail_all_all_done", "server_exit_enter", "hook_resumes",
                    "exit_task_fires", "reader_ends", "client_exit",
@@ -491,9 +491,12 @@ class C17(core.Property):
                    "reference_agrees", "conv_expect_sound_bounded", "conv_expect_sound_bounded_handlers",
                    "fail_loop_fixed", "fail_loop_le", "C17", "C17_nonvacuous", "C17_pinned_refuted_handler_task",
                    "C17_handler_task_cancelled",
+                   # link to the byte-level read loop of C02 / C15 (Model/Framing.v)
+                   "framing_delivers_items", "client_consumes_items", "link_client_framing", "link_reader_run",
+                   "link_pinned_cut_body", "framing_cut_body_at_readexactly", "link_nonvacuous",
                    "C17_late_send_stays_pending", "C17_pinned_refuted_eof", "C17_pinned_refuted_errhook",
                    "C17_reference_agrees"]
-    coq_targets = ["Props/C17.vo", "Extract/ExtractC17.vo"]
+    coq_targets = ["Props/C17.vo", "Extract/ExtractC17.vo", "Proofs/LinkClientFraming.vo"]
     rule = ("a case is one scripted server process (exit after the k-th received message with status 0 / 1 / "
             "SIGKILL, optional partial header / partial body / junk tail, optional complete bad frames) driven "
             "by the real JsonRPCClient.start_io (plain or typed BaseLanguageClient) with a conversation of answered, "
